@@ -30,7 +30,8 @@ JInit == ji = 1 /\ uniqIds = {} /\ nU = 0 /\ hdr = [kind |-> "none"]
 JNext == /\ ji < Len(Cases)
          /\ ji' = ji + 1
          /\ LET c == Cases[ji] IN
-              /\ uniqIds' = IF c.kind = "uniq" THEN uniqIds \cup {c.sid} ELSE uniqIds
+              /\ uniqIds' = IF c.kind = "uniq" THEN uniqIds \cup {c.sid}
+                             ELSE IF c.kind = "header" THEN {} ELSE uniqIds      \* a header starts a new library
               /\ nU' = IF c.kind = "header" THEN c.nuniq ELSE nU
               /\ hdr' = IF c.kind = "header" THEN c ELSE hdr
 JSpec == JInit /\ [][JNext]_vars
